@@ -2195,8 +2195,11 @@ class CIMInstanceName(_CIMComparisonMixin, SlottedPickleMixin):
         for key in case_sorted(self.keybindings.keys()):
             value = self.keybindings[key]
 
-            ret.append(key)
-            ret.append('=')
+            if key is not None:
+                ret.append(key)
+                ret.append('=')
+            # else: An unnamed keybinding (see the keybindings attribute). It
+            # cannot be represented in a WBEM URI; only its value is shown.
 
             if isinstance(value, bytes):
                 value = _to_unicode(value)
